@@ -5,6 +5,36 @@ from common import *
 CODEC_BIN = os.path.join(HARNESS_DIR, "target", "debug", "codec")
 
 
+def tool_hash_check(chk):
+    """C16, 'the hash the tool reports is the hash the library computes': the packaging tool's own binary (patch crate,
+    string_patch) is built from /repo and run; the hash it prints must be the SHA-256 of the new binary, spelled as the
+    library's check_hash reads it (64 hex digits), and the patch bytes it prints must be what the library function gives."""
+    tdir = os.path.join(HARNESS_DIR, "target", "patchbins")
+    pr = run(["cargo", "build", "--offline", "--manifest-path", "/repo/patch/Cargo.toml", "--bins", "--target-dir", tdir], env=ENV)
+    exe = os.path.join(tdir, "debug", "string_patch")
+    if pr.returncode != 0 or not os.path.exists(exe):
+        chk.problems.append(("infra", "could not build the packaging tool's binaries: " + pr.stderr[-300:]))
+        return 0
+    n = {"quick": 48, "thorough": 400}[chk.tier]
+    runs = 0
+    for i in range(n):
+        older, newer = "hello world", "hello world %d" % i
+        if i % 5 == 4:
+            older, newer = "base %d %s" % (i, "x" * (i % 17)), "%s new %d" % ("y" * (i % 13), i * 7919)
+        out = run([exe, older, newer], env=ENV)
+        runs += 1
+        m = re.search(r"^Hash \(new\): (\S*)$", out.stdout, flags=re.M)
+        want = hashlib.sha256(newer.encode()).hexdigest()
+        got = m.group(1) if m else "(no hash line; rc=%d)" % out.returncode
+        if got != want:
+            line = "TOOL-HASH-FAIL string_patch %r %r reports hash %s, the SHA-256 of the new binary is %s" % (older, newer, got, want)
+            path = chk.save_replay("C16-tool-%s.txt" % hashlib.sha1(line.encode()).hexdigest()[:10],
+                                   line + "\n# replay: cargo build --manifest-path /repo/patch/Cargo.toml --bins --target-dir <dir> && <dir>/debug/string_patch %r %r\n" % (older, newer))
+            chk.violations.append({"replay": path, "signature": "tool-hash", "why": line[:200]})
+            break
+    return runs
+
+
 def codec_check(chk, lean_ok):
     cov = {}
     if not chk.harness():
@@ -52,6 +82,8 @@ def codec_check(chk, lean_ok):
         os.unlink(tp)
         if os.path.exists(sp):
             os.unlink(sp)
+    tool = tool_hash_check(chk)
+    stats_all["tool_runs"] = tool
     cov.update(evaluations=total, distinct_nontrivial=stats_all.get("pairs", 0),
                rule="random / structured (base, new) pairs incl. identical, unrelated, empty target, shared prefix/suffix, repeated blocks; per pair: real match list, "
                     "real raw diff, model encode/decode/tiling/sha compared; plus damaged streams through the real and the model decoder; distinct = pairs generated",
